@@ -561,6 +561,33 @@ impl<'ast> syn::visit::Visit<'ast> for HasReturnOrTry {
     fn visit_expr_try(&mut self, _: &'ast ExprTry) { self.0 = true; }
 }
 impl VisitMut for OptDesugar {
+    /// statement form only (result unused): `R.get_or_insert_with(F);` -> `if R.is_none() { R = Some(F()); }`
+    fn visit_block_mut(&mut self, b: &mut Block) {
+        visit_mut::visit_block_mut(self, b);
+        if !self.methods.contains("get_or_insert_with") {
+            return;
+        }
+        for st in b.stmts.iter_mut() {
+            let ne: Option<Stmt> = if let Stmt::Expr(Expr::MethodCall(m), Some(_)) = st {
+                if m.method == "get_or_insert_with" && m.args.len() == 1 {
+                    let recv = &m.receiver;
+                    let init: Option<Expr> = match &m.args[0] {
+                        Expr::Closure(c) if c.inputs.is_empty() => { let body = &c.body; Some(parse_quote!(#body)) }
+                        Expr::Path(pth) => Some(parse_quote!(#pth())),
+                        _ => None,
+                    };
+                    init.map(|init| {
+                        self.log.push(json!({"rule": "R11", "src_line": line_of(m.method.span()), "before": norm(&m.to_token_stream()), "after": "Option::get_or_insert_with (result unused) desugared into `if is_none { = Some(..) }`"}));
+                        let s: Stmt = parse_quote!(if #recv.is_none() { #recv = Some(#init); });
+                        s
+                    })
+                } else { None }
+            } else { None };
+            if let Some(ne) = ne {
+                *st = ne;
+            }
+        }
+    }
     fn visit_expr_mut(&mut self, e: &mut Expr) {
         visit_mut::visit_expr_mut(self, e);
         if let Expr::MethodCall(m) = e {
